@@ -141,15 +141,47 @@ def run(ctx, chk):
             muts = [s for b in fn["blocks"] for s in b["s"] if (s["f"] == "fw" or (s["f"] == "ref" and s["mut"])) and s.get("chain") and s["chain"][0][0].endswith("Builder")]
             chk.check(R3, not muts, "dedup_insert_type:read-only", "dedup_insert_type mutates the builder: %s" % muts[:2], raw.where("dedup_insert_type", "Builder"))
     f = ctx.rspirv.fn("rspirv::dr::constructs", "is_type_identical", "Instruction", False)
-    e = f["body"][1][0][1] if len(f["body"][1]) == 1 else None
+    from ..symeval import SymEval, Hooks
+
+    class IH(Hooks):
+        def __init__(self, op_eq, ops_eq):
+            self.op_eq, self.ops_eq = op_eq, ops_eq
+
+        def path(self, p):
+            return ("inst", "self") if p == "self" else NotImplemented
+
+        def field(self, base, name, e):
+            if isinstance(base, tuple) and base[0] == "inst":
+                if name == "class":
+                    return ("class", base[1])
+                if name == "operands":
+                    return ("operands", base[1])
+                return ("otherfield", name, base[1])
+            if isinstance(base, tuple) and base[0] == "class" and name == "opcode":
+                return ("opcode", base[1])
+            return NotImplemented
+
+        def binary(self, op, a, b, e):
+            if op in ("==", "!=") and isinstance(a, tuple) and isinstance(b, tuple) and a[0] == b[0] and a[0] in ("opcode", "operands") and a[1] != b[1]:
+                eq = self.op_eq if a[0] == "opcode" else self.ops_eq
+                return eq == (op == "==")
+            return NotImplemented
+
+        def mcall(self, recv, m, args, e, ev):
+            if isinstance(recv, tuple) and recv[0] == "operands" and m in ("eq", "ne") and len(args) == 1:
+                return self.ops_eq == (m == "eq")
+            return NotImplemented
     other = f["sig"]["params"][1][0]
-    good = False
-    if e is not None and e[0] == "binary" and e[1] == "&&":
-        parts = {show(e[2]), show(e[3])}
-        good = parts == {"(self.class.opcode == %s.class.opcode)" % other, "(self.operands == %s.operands)" % other} or \
-            parts == {"(%s.class.opcode == self.class.opcode)" % other, "(%s.operands == self.operands)" % other}
-    chk.check(R3, good, "is_type_identical", "identity is not `opcode equal && operands equal`: %s" % (show(e) if e else "?"),
-              raw.where("is_type_identical", "Instruction"))
+    tab = {}
+    try:
+        for a_ in (True, False):
+            for b_ in (True, False):
+                tab[(a_, b_)] = SymEval(IH(a_, b_), "is_type_identical").run(f, {other: ("inst", "other")})
+        good = all(tab[k] == (k[0] and k[1]) for k in tab)
+        chk.check(R3, good, "is_type_identical", "identity is not `same opcode and equal operands`: %s" % {str(k): v for k, v in tab.items()},
+                  raw.where("is_type_identical", "Instruction"))
+    except Anchor as ex:
+        chk.bad(R3, "is_type_identical", "not analysable: %s" % ex, raw.where("is_type_identical", "Instruction"))
     chk.analysed.update({"builder_methods": len(ms), "emitting": n, "dedup_methods": nd, "next_id_writers": sorted(writers)})
 
 
